@@ -30,7 +30,8 @@ NOTES = {
     'C12': 'Not decided: mark transparency (a relation between two analyses of every file and position).',
     'C13': 'Trusted: token-start order is layout invariant. Not decided: equality of diagnostics between concrete layouts.',
     'C14': 'Trusted: struct format semantics (CPython), the transcription of the spec table in sa/msgpack_spec.py. Not decided: '
-           'float bit-exactness, UTF-8 handling, nesting depth, map key conversion, reserved (negative) ext types.',
+           'float bit-exactness, UTF-8 content, nesting beyond depth 1 (nested values are cut; list keys are checked to depth 3), '
+           'values between the sampled points of an interval (ends, their neighbours, the middle).',
     'C15': 'Trusted: multiprocessing.connection message framing. Not decided: equality of remote and in-process results, '
            'ordering under concurrent callers, multi-MiB payloads (C14 covers the length formats).',
     'C16': 'Trusted: threading.Lock/Thread.join semantics; an own write between two reads re-establishes the value. Not '
